@@ -133,6 +133,17 @@ Theorem C03_oracle_sound : forall B rk, wf rk B -> forall fuel root x l,
 Proof. exact valid_linb_sound. Qed.
 Print Assumptions C03_oracle_sound.
 
+(* strict creation (ZOPE_INTERFACE_STRICT_IRO=1): computing the __sro__ of a specification whose
+   bases all have a C3 order raises exactly when the specification itself has none, and otherwise
+   yields its C3 order *)
+Theorem C03_strict_sro_raises_iff : forall rk g root x f F,
+  wfb rk g = true -> bases g root = [] -> rk x < S f -> rk x < F ->
+  (forall b, In b (bases g x) -> c3_lin (rooted root (bases g)) (S F) b <> None) ->
+  calc_sro true root (S f) g (fresh_sro f root g) x =
+  match c3_lin (rooted root (bases g)) (S F) x with Some l => ROk l false | None => RRaise end.
+Proof. exact strict_sro_thm. Qed.
+Print Assumptions C03_strict_sro_raises_iff.
+
 (* ---------------------------------------------------------------- non-vacuity witnesses *)
 (* Interface = 0.  Diamond: 1(0) 2(1) 3(1) 4(2,3).  Inconsistent: 1(0) 2(1) 3(1,2). *)
 Definition g_diamond : graph := [(0, []); (1, [0]); (2, [1]); (3, [1]); (4, [2; 3])].
@@ -143,6 +154,13 @@ Example ex_wf_diamond : wfb rk_id g_diamond = true /\ bases g_diamond 0 = [].
 Proof. split; reflexivity. Qed.
 Example ex_wf_bad : wfb rk_id g_bad = true /\ bases g_bad 0 = [].
 Proof. split; reflexivity. Qed.
+(* the Prop-level hypothesis [wf] of the Spec theorems is met by both, also when rooted *)
+Example ex_wf_prop : wf rk_id (bases g_diamond) /\ wf rk_id (bases g_bad)
+  /\ wf (rk_rooted rk_id 0) (rooted 0 (bases g_bad)).
+Proof.
+  split; [apply wfb_wf; reflexivity|]. split; [apply wfb_wf; reflexivity|].
+  apply wf_rooted. apply wfb_wf; reflexivity.
+Qed.
 
 (* consistent case: C3 exists, and the model gives it in every mode *)
 Example ex_diamond_c3 : c3_lin (bases g_diamond) 5 4 = Some [4; 2; 3; 1; 0].
@@ -166,6 +184,17 @@ Example ex_bad_ro : ro true false 5 g_bad 3 = RRaise /\ ro true true 5 g_bad 4 =
   /\ fresh_sro 5 0 g_bad 3 = [3; 2; 1; 0] /\ fresh_sro 5 0 g_bad 4 = [4; 3; 2; 1; 0]
   /\ valid_linb (rooted 0 (bases g_bad)) 5 0 4 (fresh_sro 5 0 g_bad 4) = true.
 Proof. vm_compute. repeat split; reflexivity. Qed.
+
+(* strict creation: node 3 of the inconsistent hierarchy raises (its bases 1, 2 have C3 orders),
+   node 4 of the diamond does not *)
+Example ex_strict_sro :
+  calc_sro true 0 5 g_bad (fresh_sro 4 0 g_bad) 3 = RRaise
+  /\ (forall b, In b (bases g_bad 3) -> c3_lin (rooted 0 (bases g_bad)) 5 b <> None)
+  /\ calc_sro true 0 5 g_diamond (fresh_sro 4 0 g_diamond) 4 = ROk [4; 2; 3; 1; 0] false.
+Proof.
+  split; [vm_compute; reflexivity|]. split; [|vm_compute; reflexivity].
+  intros b [<-|[<-|[]]]; vm_compute; discriminate.
+Qed.
 
 (* merges: a successful one, a failing one, and duplicate-free inputs *)
 Example ex_merge_ok : c3_merge [[4]; [2; 1; 0]; [3; 1; 0]; [2; 3]] = MOk [4; 2; 3; 1; 0]
